@@ -185,6 +185,8 @@ pub struct GenOpt {
 	pub wild: bool,
 	pub max_sigs: u64,
 	pub max_coms: u64,
+	/// a commitment is an output (carries a 675-byte range proof) with probability 1/proof_den
+	pub proof_den: u64,
 }
 
 pub fn gen_v4(p: &mut Prng, pools: &Pools, o: &GenOpt) -> SlateV4 {
@@ -208,7 +210,7 @@ pub fn gen_v4(p: &mut Prng, pools: &Pools, o: &GenOpt) -> SlateV4 {
 	let feat_args = match (feat, p.below(10)) {
 		(2, 0) => None,
 		(2, _) => Some(KernelFeaturesArgsV4 { lock_hgt: gen_u64(p) }),
-		(_, 0..=2) => Some(KernelFeaturesArgsV4 { lock_hgt: gen_u64(p) }),
+		(_, 0) => Some(KernelFeaturesArgsV4 { lock_hgt: gen_u64(p) }),
 		_ => None,
 	};
 	let nsigs = match p.below(10) {
@@ -243,7 +245,7 @@ pub fn gen_v4(p: &mut Prng, pools: &Pools, o: &GenOpt) -> SlateV4 {
 			} else {
 				p.below(2) as u8
 			};
-			let pr = if p.coin() {
+			let pr = if p.chance(1, o.proof_den) {
 				let plen = if o.wild && p.chance(1, 6) {
 					*p.pick(&[0usize, 1, 674])
 				} else {
@@ -572,4 +574,278 @@ pub fn age_decrypt_with(ed_secret: &[u8; 32], data: &[u8]) -> Option<Vec<u8>> {
 	let mut r = d.decrypt(std::iter::once(&key as &dyn age::Identity)).ok()?;
 	r.read_to_end(&mut out).ok()?;
 	Some(out)
+}
+
+// ------------------------------------------------------------------ canonical form -> SlateV4 (replay)
+
+struct Cur<'a> {
+	v: &'a [u64],
+	i: usize,
+}
+impl<'a> Cur<'a> {
+	fn n(&mut self) -> u64 {
+		let x = self.v[self.i];
+		self.i += 1;
+		x
+	}
+	fn raw(&mut self, k: usize) -> Vec<u8> {
+		let b: Vec<u8> = self.v[self.i..self.i + k].iter().map(|x| *x as u8).collect();
+		self.i += k;
+		b
+	}
+	fn bytes(&mut self) -> Vec<u8> {
+		let k = self.n() as usize;
+		self.raw(k)
+	}
+}
+
+/// inverse of `canon_v4` (panics on a list that is not a canonical slate)
+pub fn v4_from_canon(c: &[u64]) -> SlateV4 {
+	let secp_inst = static_secp_instance();
+	let secp = secp_inst.lock();
+	let mut r = Cur { v: c, i: 0 };
+	let ver = r.n() as u16;
+	let bhv = r.n() as u16;
+	let mut idb = [0u8; 16];
+	idb.copy_from_slice(&r.raw(16));
+	let sta = state_of(r.n());
+	let off = BlindingFactor::from_slice(&r.raw(32));
+	let num_parts = r.n() as u8;
+	let amt = r.n();
+	let fee_raw = r.n();
+	let feat = r.n() as u8;
+	let ttl = r.n();
+	let nsigs = r.n();
+	let mut sigs = vec![];
+	for _ in 0..nsigs {
+		let xs = PublicKey::from_slice(&secp, &r.raw(33)).unwrap();
+		let nonce = PublicKey::from_slice(&secp, &r.raw(33)).unwrap();
+		let part = if r.n() == 1 {
+			let mut b = [0u8; 64];
+			b.copy_from_slice(&r.raw(64));
+			Some(Signature::from_raw_data(&b).unwrap())
+		} else {
+			None
+		};
+		sigs.push(ParticipantDataV4 { xs, nonce, part });
+	}
+	let coms = if r.n() == 1 {
+		let n = r.n();
+		let mut v = vec![];
+		for _ in 0..n {
+			let f = r.n() as u8;
+			let c = Commitment::from_vec(r.raw(33));
+			let p = if r.n() == 1 {
+				let b = r.bytes();
+				let mut proof = [0u8; 675];
+				proof[..b.len()].copy_from_slice(&b);
+				Some(RangeProof {
+					proof,
+					plen: b.len(),
+				})
+			} else {
+				None
+			};
+			v.push(CommitsV4 {
+				f: OutputFeaturesV4(f),
+				c,
+				p,
+			});
+		}
+		Some(v)
+	} else {
+		None
+	};
+	let proof = if r.n() == 1 {
+		let saddr = DalekPublicKey::from_bytes(&r.raw(32)).unwrap();
+		let raddr = DalekPublicKey::from_bytes(&r.raw(32)).unwrap();
+		let rsig = if r.n() == 1 {
+			Some(DalekSignature::try_from(&r.raw(64)[..]).unwrap())
+		} else {
+			None
+		};
+		Some(PaymentInfoV4 { saddr, raddr, rsig })
+	} else {
+		None
+	};
+	let feat_args = if r.n() == 1 {
+		Some(KernelFeaturesArgsV4 { lock_hgt: r.n() })
+	} else {
+		None
+	};
+	SlateV4 {
+		ver: VersionCompatInfoV4 {
+			version: ver,
+			block_header_version: bhv,
+		},
+		id: uuid::Uuid::from_bytes(idb),
+		sta,
+		off,
+		num_parts,
+		amt,
+		fee: serde_json::from_str::<FeeFields>(&format!("\"{}\"", fee_raw)).unwrap(),
+		feat,
+		ttl,
+		sigs,
+		coms,
+		proof,
+		feat_args,
+	}
+}
+
+/// the well-formedness domain of the round-trip theorems (coq: wf_slate4 /\ wf_json /\
+/// wf_coms_order), decided independently on the Rust value
+pub fn is_wf_v4(v: &SlateV4) -> bool {
+	if v.sigs.len() > 255 {
+		return false;
+	}
+	if let Some(cs) = &v.coms {
+		if cs.len() > 65535 {
+			return false;
+		}
+		let mut seen_output = false;
+		for c in cs.iter() {
+			if c.f.0 > 1 {
+				return false;
+			}
+			match &c.p {
+				Some(p) => {
+					if p.plen != 675 {
+						return false;
+					}
+					seen_output = true;
+				}
+				None => {
+					if seen_output {
+						return false; // an input after an output: not the order the wallet emits
+					}
+				}
+			}
+		}
+	}
+	true
+}
+
+/// the recorded wire-format finding classes, decided on the Rust value:
+/// 1 feat != 2 with arguments, 2 feat == 2 without arguments, 3 fee field with fee part 0
+pub fn known_classes(v: &SlateV4) -> Vec<u64> {
+	let mut k = vec![];
+	if v.feat != 2 && v.feat_args.is_some() {
+		k.push(1);
+	}
+	if v.feat == 2 && v.feat_args.is_none() {
+		k.push(2);
+	}
+	let raw = u64::from(v.fee);
+	if raw != 0 && v.fee.fee() == 0 {
+		k.push(3);
+	}
+	k
+}
+
+// ------------------------------------------------------------------ JSON text -> field map
+
+fn opt_n(o: &mut Vec<u64>, x: Option<u64>) {
+	match x {
+		Some(v) => {
+			o.push(1);
+			o.push(v);
+		}
+		None => o.push(0),
+	}
+}
+fn jnum(v: &serde_json::Value) -> Option<u64> {
+	v.as_u64().or_else(|| v.as_str().and_then(|s| s.parse().ok()))
+}
+
+/// Field map of a V4 JSON document as the wallet wrote it (layout of CodecSlate.v
+/// `canon_fields`): which keys are present and their decoded values. The text layer (hex,
+/// uuid, state labels, "ver:bhv", compact secp signatures) is decoded here.
+pub fn fields_of_json(doc: &serde_json::Value) -> Option<Vec<u64>> {
+	let secp_inst = static_secp_instance();
+	let secp = secp_inst.lock();
+	let mut o = vec![];
+	let ver = doc.get("ver")?.as_str()?;
+	let mut it = ver.split(':');
+	o.push(it.next()?.parse().ok()?);
+	o.push(it.next()?.parse().ok()?);
+	let id = uuid::Uuid::parse_str(doc.get("id")?.as_str()?).ok()?;
+	craw(&mut o, id.as_bytes());
+	o.push(match doc.get("sta")?.as_str()? {
+		"NA" => 0,
+		"S1" => 1,
+		"S2" => 2,
+		"S3" => 3,
+		"I1" => 4,
+		"I2" => 5,
+		"I3" => 6,
+		_ => return None,
+	});
+	match doc.get("off") {
+		Some(x) => {
+			o.push(1);
+			cbytes(&mut o, &unhex(x.as_str()?));
+		}
+		None => o.push(0),
+	}
+	for k in ["num_parts", "amt", "fee", "feat", "ttl"].iter() {
+		opt_n(&mut o, doc.get(*k).and_then(jnum));
+	}
+	let sigs = doc.get("sigs")?.as_array()?;
+	o.push(sigs.len() as u64);
+	for s in sigs {
+		craw(&mut o, &unhex(s.get("xs")?.as_str()?));
+		craw(&mut o, &unhex(s.get("nonce")?.as_str()?));
+		match s.get("part") {
+			Some(p) => {
+				let b = unhex(p.as_str()?);
+				let sig = Signature::from_compact(&secp, &b).ok()?;
+				o.push(1);
+				craw(&mut o, sig.as_ref());
+			}
+			None => o.push(0),
+		}
+	}
+	match doc.get("coms") {
+		None => o.push(0),
+		Some(cs) => {
+			let cs = cs.as_array()?;
+			o.push(1);
+			o.push(cs.len() as u64);
+			for c in cs {
+				opt_n(&mut o, c.get("f").and_then(jnum));
+				craw(&mut o, &unhex(c.get("c")?.as_str()?));
+				match c.get("p") {
+					Some(p) => {
+						o.push(1);
+						cbytes(&mut o, &unhex(p.as_str()?));
+					}
+					None => o.push(0),
+				}
+			}
+		}
+	}
+	match doc.get("proof") {
+		None => o.push(0),
+		Some(p) => {
+			o.push(1);
+			craw(&mut o, &unhex(p.get("saddr")?.as_str()?));
+			craw(&mut o, &unhex(p.get("raddr")?.as_str()?));
+			match p.get("rsig") {
+				Some(s) => {
+					o.push(1);
+					craw(&mut o, &unhex(s.as_str()?));
+				}
+				None => o.push(0),
+			}
+		}
+	}
+	match doc.get("feat_args") {
+		None => o.push(0),
+		Some(a) => {
+			o.push(1);
+			o.push(jnum(a.get("lock_hgt")?)?);
+		}
+	}
+	Some(o)
 }
